@@ -318,6 +318,18 @@ impl Value {
         }
     }
 
+    /// Compares two non-null values by value: numbers numerically (also an INT with a REAL), other values within their type.
+    /// Returns None if the values are of different types.
+    pub fn compare(&self, other: &Value) -> Option<Ordering> {
+        match (self, other) {
+            (Value::Int(x), Value::Float(y)) => Some(compare_int_float(*x, y.0)),
+            (Value::Float(x), Value::Int(y)) => Some(compare_int_float(*y, x.0).reverse()),
+            (Value::Null, _) | (_, Value::Null) => None,
+            (x, y) if std::mem::discriminant(x) == std::mem::discriminant(y) => Some(x.cmp(y)),
+            _ => None
+        }
+    }
+
     pub fn json_value(&self) -> serde_json::Value {
         match self {
             Value::Null => serde_json::Value::Null,
@@ -991,6 +1003,27 @@ impl ExpressionTreeVisualizer {
                 }
             }
         }
+    }
+}
+
+fn compare_int_float(x: i64, y: f64) -> Ordering {
+    if y.is_nan() {
+        return Ordering::Equal;
+    }
+
+    // Outside the i64 range (2^63 = 9223372036854775808)
+    if y >= 9223372036854775808.0 {
+        return Ordering::Less;
+    }
+
+    if y < -9223372036854775808.0 {
+        return Ordering::Greater;
+    }
+
+    let y_floor = y.floor();
+    match x.cmp(&(y_floor as i64)) {
+        Ordering::Equal if y > y_floor => Ordering::Less,
+        ordering => ordering
     }
 }
 
